@@ -3,6 +3,34 @@
 import json, subprocess
 GOENV = "GOFLAGS=-mod=mod GOPROXY=off GOSUMDB=off GOTOOLCHAIN=local CGO_ENABLED=1"
 CHECKS = {
+ "C09": dict(engine="E4 stateful model", level="exploration", design="DESIGN.md 4/C09, props/c09/NOTES.md",
+   text="generated histories of stores, deletions, reads and traversals over keys of every type through Lua operations and the Go table API, against a Go map model with the border predicate and the exactly-once traversal predicate (also with clears and overwrites interleaved with a stepping traversal)",
+   note="trusts the map model and the two predicates as written from the manual",
+   technique="stateful model-based property testing (rapid state machines)"),
+ "C18": dict(engine="E4 stateful model", level="exploration", design="DESIGN.md 4/C18, props/c18/NOTES.md",
+   text="generated list histories (insert/remove/concat/maxn/getn/unpack/direct stores, trailing holes, lists up to 1500) against a slice model, and table.sort over element multisets x comparators (valid, inconsistent, failing, non-boolean) against permutation/ordering/argument-origin/termination predicates",
+   note="trusts the slice model of the manual's list functions and the sort validity predicates",
+   technique="stateful model-based property testing (rapid state machines) + validity predicates for sort"),
+ "C20": dict(engine="E4 stateful model", level="exploration", design="DESIGN.md 4/C20, props/c20/NOTES.md",
+   text="all histories of length <= 3 (quick) / <= 4 (thorough) over two modules x 14 loader behaviours x 4 sources plus random histories up to 30 steps over up to 5 module names (files, preload from Lua and Go, RegisterModule, cycles, failing loaders) against a model of ll_require/luaL_register written from the 5.1 manual",
+   note="trusts the model of require/package.loaded/preload written from the manual; three points the property leaves open are accepted either way and counted",
+   technique="bounded-exhaustive and random stateful model-based testing (rapid)"),
+ "C02": dict(engine="E1 program differential", level="exploration", design="DESIGN.md 3, 4/C02",
+   text="generated call shapes (parameters x vararg x arguments x result context x callee kind) and deep tail calls run on gopher-lua and on the reference interpreter; traces must agree; tail calls deeper than the call stack must finish",
+   note="trusts verif/luaref; Unspecified cases are discarded and counted",
+   technique="property-based differential testing (rapid) against a reference interpreter"),
+ "C03": dict(engine="E1 program differential", level="exploration", design="DESIGN.md 3, 4/C03",
+   text="generated closure programs (capture kind x scope-exit kind, register-reusing epilogue, getter/setter pairs) and fenv programs run on gopher-lua and on the reference interpreter; traces must agree",
+   note="trusts verif/luaref (captured variables are heap cells); Unspecified cases are discarded and counted",
+   technique="property-based differential testing (rapid) against a reference interpreter"),
+ "C04": dict(engine="E1 program differential", level="exploration", design="DESIGN.md 3, 4/C04",
+   text="generated metatable programs (random event subsets on tables and userdata, logging handlers, every operator and operand-type pair, chains) run on gopher-lua and on the reference interpreter implementing manual 2.8; traces must agree",
+   note="trusts verif/luaref's metamethod dispatch written from manual 2.8; Unspecified cases are discarded and counted",
+   technique="property-based differential testing (rapid) against a reference interpreter"),
+ "C06": dict(engine="E1 program differential", level="exploration", design="DESIGN.md 3, 4/C06",
+   text="generated coroutine programs (several plain and wrapped coroutines, nested resumes, yields at depth, generators, errors, status/running probes, random payloads and driver sequences) run on gopher-lua and on the reference interpreter; traces must agree",
+   note="trusts verif/luaref's goroutine-backed coroutines and 5.1 status machine; yields across pcall/metamethod/iterator frames are outside the domain",
+   technique="property-based differential testing (rapid) against a reference interpreter"),
  "C10": dict(engine="E4 stateful model + differential", level="exploration", design="DESIGN.md 4/C10, props/c10/NOTES.md",
    text="generated stack-operation sequences inside host functions at activation depth 0..4 against a slice model with caller-owned sentinels; the full (nargs, NRet, produced, failing, handler) call-contract matrix for Call/PCall/CallByParam; object-level API calls against the same Lua expression evaluated in the same state plus an independent prediction from manual 2.8",
    note="trusts the slice model of the documented stack API and the reading of manual 2.8 used as the independent anchor",
